@@ -211,7 +211,7 @@ public:
     constexpr auto operator[](index_constant<I> index) & -> auto&
     {
         static_assert(I < sizeof...(Ts));
-        TETL_PRECONDITION(I == index());
+        TETL_PRECONDITION(I == this->index());
         return _union[index];
     }
 
@@ -221,7 +221,7 @@ public:
     constexpr auto operator[](index_constant<I> index) const& -> auto const&
     {
         static_assert(I < sizeof...(Ts));
-        TETL_PRECONDITION(I == index());
+        TETL_PRECONDITION(I == this->index());
         return _union[index];
     }
 
@@ -231,7 +231,7 @@ public:
     constexpr auto operator[](index_constant<I> index) && -> auto&&
     {
         static_assert(I < sizeof...(Ts));
-        TETL_PRECONDITION(I == index());
+        TETL_PRECONDITION(I == this->index());
         return etl::move(_union)[index];
     }
 
@@ -241,7 +241,7 @@ public:
     constexpr auto operator[](index_constant<I> index) const&& -> auto const&&
     {
         static_assert(I < sizeof...(Ts));
-        TETL_PRECONDITION(I == index());
+        TETL_PRECONDITION(I == this->index());
         return etl::move(_union)[index];
     }
 
